@@ -40,6 +40,17 @@ class Tup:
 
 
 @dataclass
+class MapV:
+    """A mapping whose every value has the same abstract value (dict comprehension)."""
+
+    value: Any
+    text: str = ""
+
+    def __repr__(self) -> str:
+        return f"MapV({self.value})"
+
+
+@dataclass
 class Phi:
     test: str
     a: Any
@@ -599,6 +610,21 @@ class Interp:
             return Ref("slice:" + unparse(node))
         if isinstance(node, ast.JoinedStr):
             return Ref("str:" + unparse(node))
+        if isinstance(node, ast.DictComp) and len(node.generators) == 1:
+            g = node.generators[0]
+            saved = dict(fr.env)
+            try:
+                tgts = g.target.elts if isinstance(g.target, ast.Tuple) else [g.target]
+                for t in tgts:
+                    if isinstance(t, ast.Name):
+                        fr.env[t.id] = Ref("item")
+                try:
+                    v = self.eval(node.value, fr)
+                except Unsupported:
+                    return Ref("obj:" + unparse(node))
+            finally:
+                fr.env = saved
+            return MapV(v, unparse(node))
         if isinstance(node, (ast.Dict, ast.Set, ast.ListComp, ast.DictComp, ast.SetComp, ast.GeneratorExp, ast.Lambda)):
             return Ref("obj:" + unparse(node))
         if isinstance(node, ast.Starred):
@@ -650,6 +676,8 @@ class Interp:
                 if not isinstance(node.slice.value, int):  # type: ignore[attr-defined]
                     return Ref(path)
         base = self.eval(node.value, fr)
+        if isinstance(base, MapV):
+            return base.value
         if isinstance(base, Tup):
             if isinstance(node.slice, ast.Constant) and isinstance(node.slice.value, int):
                 return base.items[node.slice.value]
@@ -853,6 +881,8 @@ def vtext(v) -> str:
         return f"phi({v.test};{vtext(v.a)};{vtext(v.b)})"
     if isinstance(v, Tup):
         return "(" + ",".join(vtext(x) for x in v.items) + ")"
+    if isinstance(v, MapV):
+        return "map(" + vtext(v.value) + ")"
     if hasattr(v, "canon"):
         return v.canon()
     return str(v)
